@@ -24,10 +24,13 @@ CHUNK = 30000          # records per TLC judging run
 MAX_REPORTED = 25      # VIOLATION lines printed (every violation is counted)
 
 TIERS = {
-    #            generator config          width of all cases, extra width for single-slot cases   files: k, kinds, widths
-    "quick":    ("CommentsGenQuick.cfg",    "100", None,   61, "rotate", "100"),
-    "thorough": ("CommentsGenThorough.cfg", "100", "40",   7,  "line,block,doc", "100,40"),
+    # generator config; width of all template cases; extra width for the single-slot template cases;
+    # files: list of (k, kinds, width) - one comment at every k-th token boundary
+    "quick":    ("CommentsGenQuick.cfg",    "100", None, [(61, "rotate", "100")]),
+    "thorough": ("CommentsGenThorough.cfg", "100", "40", [(7, "line,block,doc", "100"), (7, "rotate", "40")]),
 }
+OVERFLOW = "prettier.line-comment|overflow|line"     # Comments.tla, OverflowClass
+OVERFLOW_WITNESS = "findings/C09-non-idempotent-line-comment-overflow.sam"
 
 
 def kf_path():
@@ -127,6 +130,26 @@ def run_templates(d, cases, width, width1):
     return tt, ti
 
 
+def run_files(d, plan):
+    """the repository's files under every (k, kinds, width) of the plan; one trace file, one summary"""
+    tf = os.path.join(d, "trace-f.ndjson")
+    total = None
+    with open(tf, "w") as sink:
+        for n, (k, kinds, width) in enumerate(plan):
+            part = os.path.join(d, f"trace-f{n}.ndjson")
+            out, _ = vh(["comments-files", "--dirs", "/repo/tests,/repo/std", "--k", k, "--phase", SEED % k, "--kinds", kinds,
+                         "--widths", width, "--out", part, "--threads", 12], timeout=3000)
+            fi = json.loads(out)
+            sink.write(open(part).read())
+            os.remove(part)
+            if total is None:
+                total = fi
+            else:
+                for key in ("cases", "records", "invalid", "id_loc_not_a_token"):
+                    total[key] += fi[key]
+    return tf, total
+
+
 def witness_records(known, d):
     """one record per (witness file, width); returns trace path and {witness: [record ids]}"""
     p = os.path.join(d, "trace-w.ndjson")
@@ -152,7 +175,7 @@ def run(tier):
     t0 = time.time()
     d = outdir(PID)
     build_harness()
-    cfg, width, width1, k, kinds, fwidths = TIERS[tier]
+    cfg, width, width1, fplan = TIERS[tier]
     stats = {"judged": 0, "tlc_states": 0, "drift": 0}
     # 1. enumeration from the specification
     gen, cases, templates = generate(cfg, d)
@@ -161,10 +184,7 @@ def run(tier):
     for dr in ti["label_drift"][:3]:
         log(f"MODEL-DRIFT: production of token {dr['token']} ({dr['text']}) of {dr['template']}: CommentsCorpus.tla says "
             f"{dr['spec']}, the parser's locations say {dr['ast']}")
-    tf = os.path.join(d, "trace-f.ndjson")
-    out, _ = vh(["comments-files", "--dirs", "/repo/tests,/repo/std", "--k", k, "--phase", SEED % k, "--kinds", kinds,
-                 "--widths", fwidths, "--out", tf, "--threads", 12], timeout=3000)
-    fi = json.loads(out)
+    tf, fi = run_files(d, fplan)
     if fi["files"] == 0:
         tool_failure("no .sam file of /repo/tests or /repo/std could be used")
     if ti["id_loc_not_a_token"] or fi["id_loc_not_a_token"]:
@@ -233,16 +253,17 @@ def run(tier):
         "distinct_nontrivial": len(distinct),
         "rule": "a case = (template or repository file, set of <= 2 comment slots, comment kind per slot, width); templates x slots x kinds "
                 "are enumerated by TLC from spec/CommentsGen.tla (all single slots; pairs per tier), files get one comment at every "
-                f"{k}-th token boundary; non-trivial = it parses and contains at least one inserted comment; distinct by case id",
+                f"{fplan[0][0]}-th token boundary; non-trivial = it parses and contains at least one inserted comment; distinct by case id",
         "samples": samples,
         "tlc_cases_enumerated": gen.distinct,
         "tlc_states_generated": gen.generated,
+        "tlc_cases_where_import_sorting_permutes_the_comments": sum(1 for c in cases if c["exp"] != sorted(c["exp"])),
         "templates": len(templates),
         "template_cases_run": ti["cases"], "template_records": ti["records"],
         "files": fi["files"], "file_cases_run": fi["cases"], "file_records": fi["records"],
         "files_skipped": len(fi["skipped_files"]),
         "cases_skipped_invalid": ti["invalid"] + fi["invalid"],
-        "widths": {"template cases": width, "single-slot template cases also": width1, "files": fwidths},
+        "widths": {"template cases": width, "single-slot template cases also": width1, "files (k, kinds, width)": fplan},
         "slot_classes_seen": len(seen),
         "slot_classes_passing": len([c for c in seen if c not in failing]),
         "slot_classes_known_failing": len(known_failing),
@@ -380,14 +401,12 @@ def propose():
     d = outdir(PID)
     build_harness()
     stats = {"judged": 0, "tlc_states": 0, "drift": 0}
-    cfg, width, width1, k, kinds, fwidths = TIERS["thorough"]
+    cfg, width, width1, fplan = TIERS["thorough"]
     gen, cases, templates = generate(cfg, d)
-    tf = os.path.join(d, "trace-f.ndjson")
     tt, ti = run_templates(d, cases, width, width1)
     print("templates:", json.dumps(ti)[:600])
-    out, _ = vh(["comments-files", "--k", k, "--phase", SEED % k, "--kinds", kinds, "--widths", fwidths, "--out", tf, "--threads", 12],
-                timeout=3000)
-    print("files:", out[:600])
+    tf, fi = run_files(d, fplan)
+    print("files:", json.dumps(fi)[:600])
     tmpl = {t["id"]: t["toks"] for t in templates}
     # per (kind, class): counts and the best witness candidate (template case with the fewest comments / tokens)
     groups = {}
@@ -412,8 +431,18 @@ def propose():
     entries, missing = [], []
     fdir = os.path.join(VERIF, "findings")
     os.makedirs(fdir, exist_ok=True)
+    for old in os.listdir(fdir):
+        if old.startswith("C09-") and "findings/" + old != OVERFLOW_WITNESS:
+            os.remove(os.path.join(fdir, old))
     for key in sorted(groups):
         g = groups[key]
+        if key[1] == OVERFLOW:
+            entries.append({"status": "open", "property": PID, "region": f"{key[0]}:{key[1]}",
+                            "what": "a line comment that does not fit in the rest of its line is re-flowed with a trailing empty `//` line and "
+                                    "every further formatting adds one more (prettier.rs line_comment; pinned by prettier::tests::comment_tests, "
+                                    f"so it cannot be repaired without editing the test suite) ({g['n']} cases of the thorough enumeration)",
+                            "witness": OVERFLOW_WITNESS})
+            continue
         if g["best"] is None:
             missing.append((key, g["n"]))
             continue
